@@ -19,8 +19,9 @@ pub open spec fn route_allowed(c: Config, route: Seq<SwapRoute>) -> bool {
 } // verus!
 verus! {
 pub use crate::osmosis_std::types::osmosis::poolmanager::v1beta1::{SwapAmountInRoute, SwapAmountOutRoute};
-pub open spec fn is_swap_in(m: CosmosMsg, sender: Seq<char>, routes: Seq<SwapRoute>, denom: Seq<char>, amount: nat) -> bool {
+pub open spec fn is_swap_in(m: CosmosMsg, sender: Seq<char>, routes: Seq<SwapRoute>, denom: Seq<char>, amount: nat, limit: nat) -> bool {
     &&& m is SwapIn
+    &&& m->SwapIn_0.token_out_min_amount@ == dec(limit)
     &&& m->SwapIn_0.sender@ == sender
     &&& m->SwapIn_0.routes@.len() == routes.len()
     &&& forall|i: int| 0 <= i < routes.len() ==> (#[trigger] m->SwapIn_0.routes@[i]).pool_id == routes[i].pool_id
@@ -29,8 +30,9 @@ pub open spec fn is_swap_in(m: CosmosMsg, sender: Seq<char>, routes: Seq<SwapRou
     &&& m->SwapIn_0.token_in->Some_0.denom@ == denom
     &&& m->SwapIn_0.token_in->Some_0.amount@ == dec(amount)
 }
-pub open spec fn is_swap_out(m: CosmosMsg, sender: Seq<char>, routes: Seq<SwapRoute>, denom: Seq<char>, amount: nat) -> bool {
+pub open spec fn is_swap_out(m: CosmosMsg, sender: Seq<char>, routes: Seq<SwapRoute>, denom: Seq<char>, amount: nat, limit: nat) -> bool {
     &&& m is SwapOut
+    &&& m->SwapOut_0.token_in_max_amount@ == dec(limit)
     &&& m->SwapOut_0.sender@ == sender
     &&& m->SwapOut_0.routes@.len() == routes.len()
     &&& forall|i: int| 0 <= i < routes.len() ==> (#[trigger] m->SwapOut_0.routes@[i]).pool_id == routes[i].pool_id
